@@ -10,6 +10,9 @@ alarm and an address-space limit; every recorded trace is validated by Trace_Api
 
 from __future__ import annotations
 
+import hashlib
+import itertools
+import json
 import os
 import random
 import re
@@ -207,6 +210,80 @@ def file_tasks(args):
     return tasks
 
 
+# ------------------------------------------------------------------ the line cursor itself (spec/LineIter.tla)
+LI_NLINES = 6
+
+
+def lineiter_trace(ops, path):
+    """Run one operation sequence on the real LineIterator; ops: 'enter' | 'exit' | 'next' | ('back', k) | 'back_last' | 'error' | 'warn'."""
+    from iodata.utils import LineIterator, LoadError, LoadWarning
+    lit = LineIterator(path)
+    tr = []
+    handed = []          # ids handed out and not pushed back, most recent last
+    is_open = False
+    for op in ops:
+        if op == "enter":
+            if is_open or lit.fh is not None:
+                continue
+            lit.__enter__()
+            is_open = True
+            tr.append({"op": "enter"})
+        elif op == "exit":
+            if not is_open:
+                continue
+            lit.__exit__(None, None, None)
+            is_open = False
+            tr.append({"op": "exit", "closed": bool(lit.fh.closed)})
+        elif not is_open:
+            continue
+        elif op == "next":
+            try:
+                line = next(lit)
+                k = int(line.split()[1])
+                handed.append(k)
+            except StopIteration:
+                k = 0
+            tr.append({"op": "next", "res": k, "lineno": int(lit.lineno)})
+        elif op == "back_last" or (isinstance(op, tuple) and op[0] == "back"):
+            if op == "back_last":
+                if not handed:
+                    continue
+                k = handed.pop()
+            else:
+                k = op[1]
+            lit.back(f"line {k} of the file\n")
+            tr.append({"op": "back", "line": k, "lineno": int(lit.lineno)})
+        elif op in ("error", "warn"):
+            exc = LoadError("problem", lit) if op == "error" else LoadWarning("problem", lit)
+            m = re.search(r":(-?\d+)\)$", str(exc))
+            tr.append({"op": "error", "reported": int(m.group(1)) if m else -999, "named": os.path.basename(path) in str(exc)})
+    return tr
+
+
+def lineiter_traces(run, rng):
+    path = os.path.join(run.work, "lineiter.txt")
+    with open(path, "w") as f:
+        for k in range(1, LI_NLINES + 1):
+            f.write(f"line {k} of the file\n")
+    seqs = []
+    # every sequence of up to 5 operations after opening (disciplined and undisciplined push-backs, errors)
+    alphabet = ["next", "back_last", ("back", 1), ("back", 3), "error"]
+    for depth in range(1, run.pick(5, 6) + 1):
+        for combo in itertools.product(alphabet, repeat=depth):
+            seqs.append(["enter", *combo, "exit"])
+    # long random walks, mostly disciplined (the look-ahead pattern of the readers), to the end of the file and beyond
+    for _ in range(run.pick(400, 4000)):
+        n = rng.randint(4, 30)
+        ops = ["enter"]
+        for _i in range(n):
+            x = rng.random()
+            ops.append("next" if x < 0.55 else "back_last" if x < 0.8 else ("back", rng.randint(1, LI_NLINES)) if x < 0.85 else
+                       "error" if x < 0.93 else "warn")
+        ops.append("exit")
+        seqs.append(ops)
+    return [lineiter_trace(ops, path) for ops in seqs]
+
+
 def describe(tr, r, info):
     end = tr[-1]
     r = max(r, 1)
@@ -268,7 +345,7 @@ def check(run: Run):
     results = pmap(load_exec, tasks, chunksize=8)
     traces = [r[0] for r in results]
     reached = validate_traces(run, "Trace_ApiLoad", traces, chunk=3000)
-    import hashlib
+    pass
     outcomes = {}
     for (tr, info), r in zip(results, reached):
         run.count()
@@ -279,6 +356,24 @@ def check(run: Run):
             key, what = describe(tr, r, info)
             run.violation(key, what, {"src": info["src"], "note": info["note"], "fmt": info["fmt"], "many": info["many"],
                                       "basename": info["basename"], "trace": tr, "failing_event": r + 1})
+    # the line cursor: model, then recorded operation sequences of the real class
+    st = run_tlc(run, "MC_LineIter", "MC_LineIter.cfg", workers=4, timeout=300, coverage=True, tag="MC_LineIter")
+    run.add_model(st)
+    ltraces = [t for t in lineiter_traces(run, rng) if t]
+    lreached = validate_traces(run, "Trace_LineIter", ltraces, chunk=4000)
+    for tr, r in zip(ltraces, lreached):
+        run.count()
+        run.distinct("li" + hashlib.sha1(repr(tr).encode()).hexdigest())
+        bad = r != len(tr)
+        unnamed = [e for e in tr if e["op"] == "error" and not e["named"]]
+        unclosed = [e for e in tr if e["op"] == "exit" and not e["closed"]]
+        if bad or unnamed or unclosed:
+            ev = tr[max(r, 0)] if bad else (unnamed or unclosed)[0]
+            what = ("message does not name the file" if (not bad and unnamed) else "file not closed on exit" if not bad else
+                    f"{ev['op']} not explained by the cursor model")
+            run.violation(f"LineIterator {what}", json.dumps({"event": ev, "index": r + 1, "before": [e["op"] for e in tr[:max(r, 0)]][-6:]}),
+                          {"lineiter": True, "trace": tr, "failing_event": r + 1})
+    run.notes["lineiterator_sequences"] = len(ltraces)
     run.notes["corpus_files"] = len(chosen)
     run.notes["outcomes"] = outcomes
     for i in (0, len(results) // 2, len(results) - 1):
